@@ -29,7 +29,9 @@ type Conn struct {
 }
 
 func newConn(p *Port, dstCall string, via ...string) *Conn {
-	demux := p.demux.Chain(framesFilter{call: callsignFromString(dstCall)})
+	// Only frames between us and the remote station belongs to this connection. Frames between the
+	// remote and other callsigns registered with the TNC must not end up here.
+	demux := p.demux.Chain(framesFilter{between: &[2]callsign{callsignFromString(p.mycall), callsignFromString(dstCall)}})
 	disconnect := demux.NextFrame(kindDisconnect)
 	dataFrames, cancelData := demux.Frames(10, framesFilter{kinds: []kind{kindConnectedData}})
 	go func() {
